@@ -7,6 +7,7 @@
   (`problemVariables`: shortcut + general path), `Problem.get_bounds`.
   Only property theorems live here; helper lemmas are in `Optyx/Lemmas/ApiOrder.lean`, `ApiVars.lean`.
 -/
+import Optyx.Props.SortText
 import Optyx.Lemmas.ApiVars
 import Optyx.Drive.Api
 
